@@ -3,11 +3,12 @@
    w is a walk of length n from v0; the edit position p lies in [k, n - 2k); indel handling on (for a substitution: on
    or off); heap limit unrestrictive (>= 8k suffices for one edit); the check is absent or is the check of w.
    PROVED: every SINGLE edit (every position, every kind, every replacement nucleotide): it is detected exactly when the
-   corrupted strand is no longer a walk, then exactly once, and w is among the candidates.
-   NOT PROVED (decided by correspondence + oracle on sampled edit sets, see harness/props/c08.py): the induction over
-   SEVERAL edits that are pairwise at least 3k+2 apart. *)
+   corrupted strand is no longer a walk, then exactly once, and w is among the candidates;
+   and every SET of edits whose positions lie in [k, n-2k) and are pairwise at least 3k+2 apart: at most one detection per
+   edit, and whenever the number of detected errors equals the number of edits, w is among the candidates (for ANY heap
+   limit: on the fallback path the reported detection count is 0). *)
 From DSW Require Import Py Bignum Convert Kmer Graph Coder Repair Spec GraphSpec CoderSpec RepairSpec.
-From DSW.Proofs Require Import Repair8Proofs.
+From DSW.Proofs Require Import Repair8Proofs Repair8MultiProofs.
 
 Theorem C08_single_substitution : forall k acc v0 w p c vt indel heap, generated k acc -> 0 <= v0 < pow4 k ->
   is_walk acc v0 w -> (k <= p)%nat -> (p + 2 * k < length w)%nat -> is_acgt c = true -> c <> nth p w 0 ->
@@ -36,6 +37,15 @@ Theorem C08_single_deletion : forall k acc v0 w p vt heap, generated k acc -> 0 
      /\ (~ is_walk acc v0 (edit_del w p) -> In w cands).
 Proof. exact repair_single_del. Qed.
 
+(* several separated edits.  edits_ok k w k es: positions (in w) increasing, the first >= k, each + 2k < n, consecutive ones
+   at least 3k+2 apart, substitutions by a different A/C/G/T, insertions of an A/C/G/T; apply_edits applies them to w. *)
+Theorem C08_multi : forall k acc v0 w es vt heap, generated k acc -> 0 <= v0 < pow4 k -> is_walk acc v0 w ->
+  edits_ok k w k es -> check_of w vt -> (8 * Z.of_nat k) ^ Z.of_nat (length es) <= heap ->
+  exists cands st, repair_dna (apply_edits w es) acc v0 (Z.of_nat k) vt true heap = Ok (cands, st)
+     /\ 0 <= detected st <= Z.of_nat (length es)
+     /\ (detected st = Z.of_nat (length es) -> In w cands).
+Proof. exact repair_multi. Qed.
+
 (* non-vacuity: the doctest of repair_dna (order 2, GC-balanced graph = induced on its 8 vertices) *)
 Definition gc_acc : accessor :=
   [[-1;-1;-1;-1]; [4;-1;-1;7]; [8;-1;-1;11]; [-1;-1;-1;-1]; [-1;1;2;-1]; [-1;-1;-1;-1]; [-1;-1;-1;-1]; [-1;13;14;-1];
@@ -51,3 +61,4 @@ Proof. split; [vm_compute; reflexivity|]. split; [vm_compute; reflexivity|]. vm_
 Print Assumptions C08_single_substitution.
 Print Assumptions C08_single_insertion.
 Print Assumptions C08_single_deletion.
+Print Assumptions C08_multi.
